@@ -73,6 +73,9 @@ def _cases(tier):
     for name in ROOT_NAMES:
         # a model used by two siblings is placed under the root and referenced through the root's (sanitised) name
         yield {"in": ["R", [name], "shared"], "opts": "std", "judge_nontree": True}
+    for name in ("Node", "Item", "order", "Users"):
+        # the root merges with its own list items and another nested model generates the root's name from its key
+        yield {"in": ["R", [name], "recursive"], "opts": "std", "judge_nontree": True}
     for pair in (["Photo", "Photos"], ["Users", "User"], ["order_lines", "OrderLine"], ["Item", "Items"], ["Field", "Fields"]):
         yield {"in": ["R", pair], "opts": "std"}
 
@@ -158,7 +161,7 @@ def _shape(case):
             toks = ["sym:" + ("sp" if c == " " else c) for c in sorted(set(k))]
         return toks
     if tag == "R":
-        return ["root:" + n for n in case["in"][1]] + (["shared_child"] if len(case["in"]) > 2 else [])
+        return ["root:" + n for n in case["in"][1]] + ([case["in"][2] if case["in"][2] != "shared" else "shared_child"] if len(case["in"]) > 2 else [])
     return [x for x in case["in"][1:] if x is not None]
 
 
@@ -167,6 +170,10 @@ def _build(case, samples, dkr):
         import copy
         names = case["in"][1]
         body = ROOT_BODY if len(case["in"]) < 3 else {"a": {"item": {"v": 1}, "p": 1}, "b": {"item": {"v": 2}, "q": "s"}}
+        if len(case["in"]) > 2 and case["in"][2] == "recursive":
+            import inflection
+            key = inflection.underscore(names[0]).rstrip("s")
+            body = {"id": 1, "name": "n", "children": [{"id": 2, "name": "m", "children": [], "own0": 5, "extra0": [1]}], key: {"other": 1, "thing": "x"}}
         roots = {n: [dict(copy.deepcopy(body), **{f"own{i}": i, f"extra{i}": [i]})] for i, n in enumerate(names)}
         return pipeline.build_roots(roots, types=pipeline.ALL_TYPES, merge=case.get("merge", "default"))
     return pipeline.build(samples, types=pipeline.ALL_TYPES, dkr=dkr, merge=case.get("merge", "default"))
